@@ -325,6 +325,11 @@ theorem parse_serialize_crosslink_false :
 
 /-! ## 5. the round trip for every accepted grammatical string -/
 
+/-- a chain without residues that carries leading sections only (`{a}`, `[a]-`, `<13C>`) round-trips as well -/
+theorem parse_serialize_startOnly (plus : Plus) (a : Annotation) (hc : canonStartOnly a = true) :
+    parse true (serialize plus a) = .ok (.single a) :=
+  parse_serialize_startOnly' plus a hc
+
 /-- the text of every grammatical tree is a grammatical string -/
 theorem render_grammatical (t : SText) (h : t.grammatical = true) : grammaticalString t.render = true := by
   simp only [SText.grammatical, Bool.and_eq_true] at h
@@ -346,7 +351,12 @@ joiner as repaired) and parsing again gives the same object. -/
 theorem accepted_roundtrip (plus : Plus) (s : List Char) (p : Parsed) (_hp : parse true s = .ok p)
     (hc : canonParsed p = true) : (serializeParsedFixed plus p).bind (parse true) = .ok p := by
   cases p with
-  | single a => show parse true (serialize plus a) = _; exact parse_serialize plus a hc
+  | single a =>
+    show parse true (serialize plus a) = _
+    simp only [canonParsed, Bool.or_eq_true] at hc
+    rcases hc with hc | hc
+    · exact parse_serialize plus a hc
+    · exact parse_serialize_startOnly plus a hc
   | multi as conns =>
     simp only [canonParsed, Bool.and_eq_true, decide_eq_true_eq] at hc
     obtain ⟨⟨⟨h2, hcan⟩, hlen⟩, hsome⟩ := hc
@@ -358,7 +368,12 @@ theorem accepted_roundtrip (plus : Plus) (s : List Char) (p : Parsed) (_hp : par
 theorem accepted_roundtrip_as_coded (plus : Plus) (s : List Char) (p : Parsed) (_hp : parse true s = .ok p)
     (hc : canonParsed p = true) (hx : noCrosslink p = true) : (serializeParsed plus p).bind (parse true) = .ok p := by
   cases p with
-  | single a => show parse true (serialize plus a) = _; exact parse_serialize plus a hc
+  | single a =>
+    show parse true (serialize plus a) = _
+    simp only [canonParsed, Bool.or_eq_true] at hc
+    rcases hc with hc | hc
+    · exact parse_serialize plus a hc
+    · exact parse_serialize_startOnly plus a hc
   | multi as conns =>
     simp only [canonParsed, Bool.and_eq_true, decide_eq_true_eq] at hc
     obtain ⟨⟨⟨h2, hcan⟩, hlen⟩, _⟩ := hc
@@ -381,12 +396,13 @@ theorem accepted_serialize_fixpoint (plus : Plus) (s : List Char) (p : Parsed) (
 example : grammaticalString "[a]?(?PE)[+1.0]^3P-[Formula:[13C2]H4]/-2+K//AC[Oxidation]".toList = true := by decide +kernel
 
 /-- Accepted text whose result is NOT grammatical: the parser takes it, the round-trip theorems do not cover it.
-(1) a chain without residues (`{a}`, `[a]-`, `<13C>`): on the real code these do round-trip; (2) numbers outside the
-`repr` model (`PEP[1e400]` is `inf` in Python and round-trips there; the model carries it opaquely). -/
+(1) a multi-chain text with a residue-free chain (`P+{a}`; a single residue-free chain such as `{a}` IS covered, see
+`parse_serialize_startOnly`): on the real code it does round-trip; (2) numbers outside the `repr` model (`PEP[1e400]` is
+`inf` in Python and round-trips there; the model carries it opaquely). -/
 theorem accepted_not_grammatical :
-    accepted "{a}".toList = true ∧ grammaticalString "{a}".toList = false ∧
-    accepted "[a]-".toList = true ∧ grammaticalString "[a]-".toList = false ∧
-    accepted "PEP[1e400]".toList = true ∧ grammaticalString "PEP[1e400]".toList = false := by decide +kernel
+    accepted "P+{a}".toList = true ∧ grammaticalString "P+{a}".toList = false ∧
+    accepted "PEP[1e400]".toList = true ∧ grammaticalString "PEP[1e400]".toList = false ∧
+    grammaticalString "{a}".toList = true ∧ grammaticalString "[a]-".toList = true := by decide +kernel
 
 /-- Text that used to be accepted although its result did not survive serialize/parse is rejected since fix 0b351bb:
 a dangling `-`, an unclosed or empty interval, a modification before the first residue, a multiplier `^0`. -/
